@@ -48,6 +48,9 @@ def family(rp):
     f.add("field-assigned-one-branch-only", "class X\n    def z: Int\n\n    def __init__(self) =>\n        if True then\n            self.z := 1\n        else\n            print(1)\n", "reject")
     f.add("field-assigned-both-branches", "class X\n    def z: Int\n\n    def __init__(self) =>\n        if True then\n            self.z := 1\n        else\n            self.z := 2\n", "accept")
     f.add("field-read-in-loop-before-assign", "class X\n    def z: Int\n\n    def __init__(self) =>\n        for i in 0 .. 2 do\n            print(self.z)\n        self.z := 1\n", "reject")
+    f.add("field-assigned-through-nested-only", "class A\n    def b: Int := 0\n\nclass X\n    def a: A\n\n    def __init__(self) =>\n        self.a.b := 1\n", "reject")
+    f.add("if-without-else-def-used-after", "def c := False\nif c then\n    def x := 10\n\nprint(x)", "reject")
+    f.add("field-assigned-in-if-without-else", "class X\n    def z: Int\n\n    def __init__(self, c: Bool) =>\n        if c then\n            self.z := 10\n        print(self.z + 1)\n", "reject")
     f.add("field-read-before-assign", "class X\n    def z: Int\n\n    def __init__(self) =>\n        self.z\n", "reject")
     f.add("field-assigned-in-init", "class X\n    def z: Int\n\n    def __init__(self) =>\n        self.z := 1\n", "accept")
     f.add("field-not-assigned-in-init", "class X\n    def z: Int\n\n    def __init__(self) =>\n        print(1)\n", "reject")
@@ -191,7 +194,7 @@ def ob_flow(run, mir, rp, fam):
             for p in ends:
                 c = conj(p.cond)
                 s = p.state
-                if result_kind(p) != "Ok":
+                if result_kind(p) == "Err" or p.kind != "return":
                     continue
                 n_ok += 1
                 gens = calls(p, "generate")
@@ -200,7 +203,11 @@ def ob_flow(run, mir, rp, fam):
                     for nme, r_ in (("cond", cond), ("then", then), ("el", el), ("body", body), ("expr", expr), ("col", col)):
                         if z3.eq(g["argvals"][0], ex.to_val(s, r_)):
                             by[nme] = g
-                rv = ex.to_val(s, p.ret.fields[0])
+                if result_kind(p) == "Ok":
+                    rv = ex.to_val(s, p.ret.fields[0])
+                else:
+                    # the result is handed on from a callee (tail call): its Ok payload must still be the expected environment
+                    rv = ex.to_val(s, ex.project(s, ex.project(s, p.ret, ("v", "Ok")), ("f", 0), "Environment"))
                 okenv = lambda g: ex.to_val(s, ex.project(s, ex.project(s, g["ret"], ("v", "Ok")), ("f", 0), "Environment"))
                 if shape == "if-else":
                     if not all(k in by for k in ("cond", "then", "el")):
@@ -310,6 +317,55 @@ def ob_self_field(run, mir, rp, fam):
              fam.as_replay("self-field:", only=["field-"]))
 
 
+def ob_assigned_detection(run, mir, rp, fam):
+    ob = run.ob("assigned-field-detection", "E2", "gen_call Reassign: among the parts of the assigned identifier (self "
+                "stripped) only a directly assigned name (IdentiCall::Iden) is marked as assigned; an assignment through "
+                "a field (self.a.b := ..) marks nothing", ["gen_call::{closure#1}", "gen_call::{closure#2}"])
+    IDENT_RS = "src/check/ident.rs"
+    c1 = e2.find1(mir, file=CALL_RS, name="gen_call", closure=["{closure#1}"])
+    ex = Exec(mir, max_paths=2000)
+    claims = []
+    lay = e2.rust_enum(IDENT_RS, "IdentiCall")
+    for variant in lay:
+        st = State()
+        var = opq("var", "String")
+        if variant == "Iden":
+            val = Agg("IdentiCall", "Iden", [var])
+        else:
+            arity = lay[variant] if isinstance(lay[variant], int) else len(lay[variant] or [])
+            val = Agg("IdentiCall", variant, [opq(f"part{i}", "Box<IdentiCall>") for i in range(arity)])
+        env_arg = []
+        for n, ty in c1.args[:1]:
+            t = ty.strip()
+            cl = Agg("closure", "{closure@gen_call#1}", [Ref(ex.new_cell(st, opq("left.pos", "Position")))])
+            env_arg.append(Ref(ex.new_cell(st, cl)) if t.startswith("&") else cl)
+        ends = e2.run_kernel(run, ex, c1, env_arg + [val], st)
+        for p in ends:
+            c = conj(p.cond)
+            s = p.state
+            if p.kind != "return":
+                claims.append(z3.Not(c))
+                continue
+            head = c1.ret.strip()
+            r = p.ret
+            if isinstance(r, Agg) and r.ty in ("Option", "Result"):
+                yields = r.variant in ("Some", "Ok")
+                payload = r.fields[0] if yields else None
+                if variant == "Iden":
+                    claims.append(z3.Implies(c, z3.And(z3.BoolVal(yields), ex.to_val(s, payload) == ex.to_val(s, var)) if yields else z3.BoolVal(False)))
+                else:
+                    claims.append(z3.Implies(c, z3.BoolVal(not yields)))
+            else:
+                good = 1 if "Option" in head else 0
+                d = ex.discr(s, r, head)
+                if variant == "Iden":
+                    pl = ex.project(s, ex.project(s, r, ("v", "Some" if "Option" in head else "Ok")), ("f", 0), "String")
+                    claims.append(z3.Implies(c, z3.And(d == good, ex.to_val(s, pl) == ex.to_val(s, var))))
+                else:
+                    claims.append(z3.Implies(c, d != good))
+    e2.prove(run, ob, ex, [], conj(claims), {}, fam.as_replay("assigned-detection:", only=["field-"]))
+
+
 def run(run):
     mir = e2.load_mir(run)
     rp = common.Replay()
@@ -319,7 +375,7 @@ def run(run):
                "outside: forward references between top-level definitions, comprehension variables, class scopes, match arms (constrain_cases loop)")
     run.trusted += ["rustc nightly MIR dump", "mirsym MIR semantics", "z3"]
     run.bounds = {"paths": "all paths, loops cut at headers"}
-    for f in (ob_lookup, ob_sequencing, ob_flow, ob_env_ops, ob_self_field):
+    for f in (ob_lookup, ob_sequencing, ob_flow, ob_env_ops, ob_self_field, ob_assigned_detection):
         try:
             f(run, mir, rp, fam)
         except Unsupported as e:
